@@ -16,7 +16,7 @@
 (***************************************************************************)
 EXTENDS Integers, Sequences, TLC, Json
 
-CONSTANTS Mode, Lits, BinOps, UnOps, Funcs, Funcs2, MaxBin, MaxUn, Chain, Signs
+CONSTANTS Mode, Lits, BinOps, UnOps, PostOps, Funcs, Funcs2, MaxBin, MaxUn, Chain, Signs
 
 VARIABLES stack, nbin, nun
 
@@ -39,6 +39,11 @@ ApplyUn(op) ==
   /\ LET n == Len(stack) IN
      stack' = Append(SubSeq(stack, 1, n - 1), LP \o op \o stack[n] \o RP)
   /\ nun' = nun + 1 /\ UNCHANGED nbin
+ApplyPost(op) ==      \* postfix operator (temperature scale, percent): ( x op )
+  /\ Len(stack) >= 1 /\ nun < MaxUn
+  /\ LET n == Len(stack) IN
+     stack' = Append(SubSeq(stack, 1, n - 1), LP \o stack[n] \o op \o RP)
+  /\ nun' = nun + 1 /\ UNCHANGED nbin
 ApplyFunc(f) ==
   /\ Len(stack) >= 1 /\ nun < MaxUn
   /\ LET n == Len(stack) IN
@@ -55,6 +60,7 @@ TreeNext == \/ \E x \in Lits : Push(x)
             \/ \E f \in Funcs2 : ApplyFunc2(f)
             \/ \E op \in BinOps : ApplyBin(op)
             \/ \E op \in UnOps : ApplyUn(op)
+            \/ \E op \in PostOps : ApplyPost(op)
             \/ \E f \in Funcs : ApplyFunc(f)
 TreeDone == Len(stack) = 1 /\ (nbin + nun) >= 1
 
